@@ -1282,7 +1282,7 @@ class RequestHandler:
                     self._write_buffer = []
                     self.set_status(304)
             if self._status_code in (204, 304) or (100 <= self._status_code < 200):
-                assert not self._write_buffer, (
+                assert not any(self._write_buffer), (
                     "Cannot send body with %s" % self._status_code
                 )
                 self._clear_representation_headers()
